@@ -2,7 +2,7 @@
 closure variables are not overridable, declining leaves the value untouched, activation order is preserved."""
 import ast
 
-from ..astq import compare_normal, conds, expand, facts_of, is_name, is_self_attr, names_in, returns_of
+from ..astq import compare_normal, conds, expand, facts_of, is_name, is_self_attr, iter_text, names_in, returns_of
 from ..cfg import CFG
 from ..core import order, AnalysisError, norm, walk_local
 from ..xform import query as Q
@@ -221,7 +221,7 @@ def run(repo, chk):
     chk.ob("R04.5", "interpret.Interactor.register:appends", ok, rg.where, "accumulators are registered by appending")
     wf = repo.func("interpret.WorkingFrame.__init__")
     lc = [n for n in walk_local(wf.node) if isinstance(n, ast.ListComp)]
-    chk.ob("R04.5", "interpret.WorkingFrame.__init__:keeps-order", len(lc) == 1 and norm(lc[0].generators[0].iter) == "accumulators.get(varname, [])", wf.where,
+    chk.ob("R04.5", "interpret.WorkingFrame.__init__:keeps-order", len(lc) == 1 and iter_text(lc[0].generators[0].iter) == "accumulators.get(varname, ())", wf.where,
            "the working frame keeps the registration order of the matching accumulators")
     en = repo.func("overlay.BaseOverlay.__enter__")
     chk.ob("R04.5", "overlay.BaseOverlay.__enter__:handlers-in-order", facts_of(en).mentions("([(h.selector, h) for h in self.handlers])"), en.where,
